@@ -35,6 +35,9 @@ pub struct Case {
     /// soft RLIMIT_NOFILE of the run, in half descriptors per member of the widest group of the plan, plus 24 (0: inherited)
     #[serde(default)]
     pub nofile_per_member: u64,
+    /// every member of the group prints this many bytes before it starts waiting for the others
+    #[serde(default)]
+    pub early_output: u64,
 }
 
 pub fn strategy(max_n: usize) -> impl Strategy<Value = Case> {
@@ -59,9 +62,10 @@ pub fn strategy(max_n: usize) -> impl Strategy<Value = Case> {
             prop_oneof![5 => Just(0u8), 3 => Just(1u8), 1 => Just(2u8), 1 => Just(3u8)],
             any::<u32>(),
             prop_oneof![3 => Just(0u64), 1 => Just(13u64), 1 => Just(14u64)],
+            prop_oneof![3 => Just(0u64), 1 => Just(70_000u64), 1 => Just(200_000u64)],
         ),
     )
-        .prop_map(|(n, before, after, small, picks, ncmd, bc, gp, tw, listener, shared_exe, (history, history_mask, nofile_per_member))| {
+        .prop_map(|(n, before, after, small, picks, ncmd, bc, gp, tw, listener, shared_exe, (history, history_mask, nofile_per_member, early_output))| {
             let mut layers = vec![];
             for i in 0..before {
                 layers.push(small[i % small.len()]);
@@ -83,6 +87,8 @@ pub fn strategy(max_n: usize) -> impl Strategy<Value = Case> {
                 history_mask,
                 // only where the wide layer dominates what the process needs anyway
                 nofile_per_member: if n >= 24 && !listener { nofile_per_member } else { 0 },
+                // more than a pipe buffer (64 KiB) per member; kept to small groups
+                early_output: if n <= 12 { early_output } else { 0 },
             }
         })
 }
@@ -127,6 +133,7 @@ fn attempt(case: &Case, w: usize, timeout_ms: u64) -> Result<(bool, CaseInfo, Va
             let mut b = Behavior::default();
             if ci == case.barrier_cmd && members.contains(&t.path) {
                 b.barrier = Some((format!("g{}", gi), n, timeout_ms));
+                b.pre_out_bytes = case.early_output;
             }
             beh.insert((c.clone(), t.path.clone()), b);
         }
@@ -217,6 +224,7 @@ fn attempt(case: &Case, w: usize, timeout_ms: u64) -> Result<(bool, CaseInfo, Va
         .class_if(case.shared_exe, "shared-executable")
         .class_if(case.history != 0, "after-an-earlier-run")
         .class_if(case.nofile_per_member > 0, "modest-open-files-limit")
+        .class_if(case.early_output > 0, "members-print-more-than-a-pipe-buffer-first")
         .class_if(history_failures > 0 && history_failures < n, "earlier-run-failed-for-part-of-the-group")
         .inv(env.invocations);
     let obs = json!({"group": members, "timeouts": timeouts, "run": out.brief()});
